@@ -10,6 +10,7 @@ func init() {
 		MinEvals: 200, NeedInstr: true,
 		Rule: "scenario = (block size, 1-2 Directory volumes, pre-state none|intact|corrupt copy on first/last/all volumes); a trace child lists the N yield points " +
 			"(every filesystem step + every 32 KiB chunk of the write path, inserted by cmd/vinstr) of one PUT; for EVERY k in 1..N a child process is SIGKILLed at point k, plus one killed right after it recorded the 200; " +
+			"syskill stream: strace is attached to a waiting child and kills it (inject=<call>:signal=SIGKILL:when=k) at every file-mutating system call of the PUT, independent of the instrumenter; " +
 			"cancellation variant: CloseNotify fires at point k in-process; a NEW server over the same directories is judged (GET, files on disk, /index). " +
 			"exhaustive over the kill/cancel points of each scenario run; distinct = distinct (point label, size, nvol, pre-state, acked) tuples",
 		Assume: []string{"durability is claimed against process death only (page cache survives SIGKILL); nothing is asserted about power loss",
